@@ -15,12 +15,23 @@ Table spec (JSON-able; the same structure is sent to the Lean driver):
     {'syms': [[key, instr, [arg keys]], ...], 'assets': None | {'persistent': [gid...], 'prev': None | [0/1...]}}
     instr ::= ['functor', actor_tag, 'apply'|'train', n_setstate_presets] | ['getter', i] | ['loader', gid]
             | ['dumper'] | ['committer']
+    optional: 'builders': {str(tag): {'cls': 'HyA'|'HyB'|'HyC', 'args': [hyper...], 'kw': {name: hyper}}} - the actors of
+              that tag are built by `<cls>.builder(tag, rec, *args, **kw)` (hyper-parameters visible in every output and
+              state); without an entry the tag is built by the parameterless `Stateless`/`Stateful`.
+              'prev' entries: 0 no state | 1 truthy stored state | ['f', n] falsy stored payload number n >= 1000
+              (1000: b'', 1001: 0, else a falsy provenance term)
+
+Falsy yet distinguishable payloads (twin of `Val.truthy` in lean/ForML/Model/Symbols.lean): the outputs of an actor
+whose tag has bit FALSY_BASE set and the states of an actor whose tag has bit 2*FALSY_BASE set are falsy provenance
+terms; stored payloads numbered >= FALSY_BASE are falsy.
 """
 from __future__ import annotations
 
+import contextlib
 import hashlib
 import json
 import os
+import sys
 import threading
 import uuid
 
@@ -52,7 +63,7 @@ class Term:
         return 1
 
     def __bool__(self):
-        return True
+        return not falsy_term(self.kind, self.items)
 
     def __iter__(self):
         raise TypeError('term is not iterable')
@@ -70,6 +81,53 @@ class Term:
 
     def __repr__(self):
         return f'<{self.kind} {digest(self)[:8]}>'
+
+
+FALSY_BASE = 1000  # twin of `falsyBase` in lean/ForML/Model/Symbols.lean (checked against the driver on every run)
+
+
+def tag_of(ident):
+    """The actor symbol inside a term: the tag itself, or ('actor', tag, params) for a configured instance."""
+    return ident[1] if isinstance(ident, tuple) else ident
+
+
+def falsy_term(kind, items) -> bool:
+    """Python truthiness of a provenance term is part of its structure (so it survives pickling and digests)."""
+    if kind == 'apply':
+        return tag_of(items[0]) // FALSY_BASE % 2 == 1
+    if kind == 'state':
+        return tag_of(items[0]) // (2 * FALSY_BASE) % 2 == 1
+    if kind == 'stored':
+        return items[0] >= FALSY_BASE
+    return False
+
+
+class Zero(int):
+    """The payload `0` (a real int zero: falsy, `len()` fails) - told apart from the integers inside terms."""
+
+    def __new__(cls):
+        return super().__new__(cls, 0)
+
+    def __reduce__(self):
+        return (Zero, ())
+
+
+def stored_payload(n):
+    """The stored payload number `n`: truthy provenance term below FALSY_BASE, then b'', 0, falsy terms."""
+    if n == FALSY_BASE:
+        return b''
+    if n == FALSY_BASE + 1:
+        return Zero()
+    return Term('stored', n)
+
+
+def _as_term(v):
+    """b'' and 0 are the stored payloads FALSY_BASE and FALSY_BASE + 1."""
+    if isinstance(v, bytes) and v == b'':
+        return Term('stored', FALSY_BASE)
+    if isinstance(v, Zero):
+        return Term('stored', FALSY_BASE + 1)
+    return None
 
 
 def _rebuild(kind, items, nonce):
@@ -97,6 +155,9 @@ def digest(v) -> str:
     """Merkle digest of a value in the `Val.toSexp` vocabulary (shared sub-terms are hashed once)."""
     if v is None:
         return 'none'
+    t = _as_term(v)
+    if t is not None:
+        return digest(t)
     if isinstance(v, Term):
         if v._digest is None:
             v._digest = hashlib.sha1(('T' + v.kind + '(' + ','.join(digest(i) for i in v.items) + ')').encode()).hexdigest()
@@ -112,8 +173,9 @@ def digest(v) -> str:
     return 'opaque:' + type(v).__name__
 
 
-def digest_canon(c) -> str:
-    """The same digest computed from the canonical nested-list form (what the Lean driver prints)."""
+def digest_canon(c, actors=None) -> str:
+    """The same digest computed from the canonical nested-list form (what the Lean driver prints). `actors`: the
+    driver's table {actor symbol: identity of the configured instance it stands for}."""
     if c == 'none' or c is None:
         return 'none'
     if isinstance(c, int):
@@ -121,18 +183,23 @@ def digest_canon(c) -> str:
     if isinstance(c, str):
         return 's' + c
     kind = c[0]
+
+    def actor(a):
+        a = int(a)
+        return digest(actors[a]) if actors and a in actors else 'i' + str(a)
+
     if kind in ('input', 'stored'):
         items = ['i' + str(int(c[1]))]
     elif kind == 'apply':
-        items = ['i' + str(int(c[1])), digest_canon(c[2]), _dlist(c[3])]
+        items = [actor(c[1]), digest_canon(c[2], actors), _dlist(c[3], actors)]
     elif kind == 'state':
-        items = ['i' + str(int(c[1])), digest_canon(c[2]), digest_canon(c[3]), digest_canon(c[4])]
+        items = [actor(c[1]), digest_canon(c[2], actors), digest_canon(c[3], actors), digest_canon(c[4], actors)]
     elif kind == 'proj':
-        items = ['i' + str(int(c[1])), digest_canon(c[2])]
+        items = ['i' + str(int(c[1])), digest_canon(c[2], actors)]
     elif kind == 'dumped':
-        items = [digest_canon(c[1])]
+        items = [digest_canon(c[1], actors)]
     elif kind == 'committed':
-        items = [_dlist(c[1])]
+        items = [_dlist(c[1], actors)]
     elif kind == 'error':
         items = ['s' + str(c[1])]
     else:
@@ -140,8 +207,8 @@ def digest_canon(c) -> str:
     return hashlib.sha1(('T' + kind + '(' + ','.join(items) + ')').encode()).hexdigest()
 
 
-def _dlist(cs) -> str:
-    return hashlib.sha1(('L(' + ','.join(digest_canon(i) for i in cs) + ')').encode()).hexdigest()
+def _dlist(cs, actors=None) -> str:
+    return hashlib.sha1(('L(' + ','.join(digest_canon(i, actors) for i in cs) + ')').encode()).hexdigest()
 
 
 def size(v, limit=10 ** 9) -> int:
@@ -158,11 +225,18 @@ def canon(v):
     """Nested lists in the vocabulary of `Val.toSexp` (tree form: only call on small terms)."""
     if v is None:
         return 'none'
+    t = _as_term(v)
+    if t is not None:
+        return ['stored', t.items[0], repr(v)]
+    if isinstance(v, str):
+        return repr(v)
+    if isinstance(v, tuple) and len(v) == 3 and v[0] == 'actor':  # a configured instance: tag and parameter assignment
+        return ['actor', v[1], ' '.join(f'{k}={p!r}' for k, p in v[2])]
     if isinstance(v, Term):
         if v.kind in ('input', 'stored'):
             return [v.kind, v.items[0]]
         if v.kind == 'apply':
-            return ['apply', v.items[0], canon(v.items[1]), [canon(a) for a in v.items[2]]]
+            return ['apply', canon(v.items[0]), canon(v.items[1]), [canon(a) for a in v.items[2]]]
         if v.kind == 'committed':
             return ['committed', [canon(a) for a in v.items[0]]]
         return [v.kind] + [canon(i) for i in v.items]
@@ -231,11 +305,15 @@ class Stateless(flow.Actor):
         self._rec = rec
         self._state = None
 
+    def ident(self):
+        """What a result says about the actor that made it: the tag (parameterless classes)."""
+        return self._tag
+
     def apply(self, *args):
         if FAIL['tag'] is not None and FAIL['tag'] == self._tag:
             FAIL['tag'] = None
             raise Injected(f'actor {self._tag} fails once')
-        res = stamp(Term('apply', self._tag, self._state, tuple(args)))
+        res = stamp(Term('apply', self.ident(), self._state, tuple(args)))
         record(self._rec, ['call', self._tag, 'apply', digest(res), _brief(res), res.nonce,
                            [o for o in map(origin, (self._state,) + tuple(args)) if o]])
         return res
@@ -253,7 +331,7 @@ class Stateful(Stateless):
         if len(args) != 2:
             raise TypeError('train() takes features and labels')
         prev = self._state
-        self._state = stamp(Term('state', self._tag, prev, args[0], args[1]))
+        self._state = stamp(Term('state', self.ident(), prev, args[0], args[1]))
         record(self._rec, ['call', self._tag, 'train', digest(self._state), _brief(self._state), self._state.nonce,
                            [o for o in map(origin, (prev, args[0], args[1])) if o]])
 
@@ -265,6 +343,88 @@ class Stateful(Stateless):
 
 
 assert Stateful.is_stateful() and not Stateless.is_stateful()
+
+
+class _Hyper:
+    """Mix-in for actors with hyper-parameters: every constructor parameter after (tag, rec) is kept by name, exposed by
+    `get_params`, changed by `set_params` and is part of the identity stamped on every output and every state."""
+
+    def _configure(self, tag, rec, params):
+        Stateless.__init__(self, tag, rec)
+        self._params = dict(params)
+
+    def ident(self):
+        return ('actor', self._tag, tuple(self._params.items()))
+
+    def get_params(self):
+        return dict(self._params)
+
+    def set_params(self, **kwargs):
+        for k in kwargs:
+            if k not in self._params:
+                raise TypeError(f'unknown hyper-parameter {k}')
+        self._params.update(kwargs)
+
+
+class HyA(_Hyper, Stateless):
+    def __init__(self, tag, rec=None, alpha=100, beta=None, gamma='g', *, delta=0):
+        self._configure(tag, rec, {'alpha': alpha, 'beta': beta, 'gamma': gamma, 'delta': delta})
+
+
+class HyB(_Hyper, Stateless):
+    def __init__(self, tag, rec=None, upper=None, lower=0, flag=True):
+        self._configure(tag, rec, {'upper': upper, 'lower': lower, 'flag': flag})
+
+
+class HyC(_Hyper, Stateless):
+    def __init__(self, tag, rec, scale, offset='', *, mode=False):  # `scale` has no default
+        self._configure(tag, rec, {'scale': scale, 'offset': offset, 'mode': mode})
+
+
+class HyAS(_Hyper, Stateful):
+    def __init__(self, tag, rec=None, alpha=100, beta=None, gamma='g', *, delta=0):
+        self._configure(tag, rec, {'alpha': alpha, 'beta': beta, 'gamma': gamma, 'delta': delta})
+
+
+class HyBS(_Hyper, Stateful):
+    def __init__(self, tag, rec=None, upper=None, lower=0, flag=True):
+        self._configure(tag, rec, {'upper': upper, 'lower': lower, 'flag': flag})
+
+
+class HyCS(_Hyper, Stateful):
+    def __init__(self, tag, rec, scale, offset='', *, mode=False):
+        self._configure(tag, rec, {'scale': scale, 'offset': offset, 'mode': mode})
+
+
+HYPER = {'HyA': (HyA, HyAS), 'HyB': (HyB, HyBS), 'HyC': (HyC, HyCS)}
+NODEFAULT = '<no default>'
+
+
+def signature_of(cls_name):
+    """[(name, default | NODEFAULT, keyword-only?)] of the hyper-parameters: read off the live class."""
+    import inspect
+
+    out = []
+    for i, prm in enumerate(inspect.signature(HYPER[cls_name][0]).parameters.values()):
+        if i < 2:
+            continue  # tag, rec: plumbing of the harness
+        assert prm.kind in (prm.POSITIONAL_OR_KEYWORD, prm.KEYWORD_ONLY)
+        out.append((prm.name, NODEFAULT if prm.default is prm.empty else prm.default, prm.kind == prm.KEYWORD_ONLY))
+    assert [tuple(x) for x in out] == [
+        tuple((p.name, NODEFAULT if p.default is p.empty else p.default, p.kind == p.KEYWORD_ONLY))
+        for i, p in enumerate(inspect.signature(HYPER[cls_name][1]).parameters.values()) if i >= 2]
+    return out
+
+
+assert HyAS.is_stateful() and not HyA.is_stateful()
+
+
+def make_builder(tag, rec, stateful, bspec):
+    """The real `flow.Spec` of a tag (TypeError: `Spec.__new__` refuses the arguments)."""
+    if bspec is None:
+        return (Stateful if stateful else Stateless).builder(tag=tag, rec=rec)
+    cls = HYPER[bspec['cls']][1 if stateful else 0]
+    return cls.builder(tag, rec, *bspec.get('args', ()), **bspec.get('kw', {}))
 
 # --------------------------------------------------------------------------------------------------
 # assets: the real asset.State over a recording fake generation
@@ -306,7 +466,10 @@ class FakeGeneration:
         record(self.rec, ['load', key if isinstance(key, int) else str(key)])
         if self.prev is None or not isinstance(key, int) or key >= len(self.prev):
             raise forml.MissingError('no previous generation')
-        return Term('stored', key) if self.prev[key] else None
+        p = self.prev[key]
+        if isinstance(p, (list, tuple)):  # ['f', n]: the falsy stored payload number n
+            return stored_payload(p[1])
+        return Term('stored', key) if p else None
 
 
 _GIDS: dict = {}
@@ -350,7 +513,7 @@ def materialise(spec, rec):
         if kind == 'functor':
             _, tag, action, npre = ins
             if tag not in builders or spec.get('fresh_builders'):
-                builders[tag] = (Stateful if stateful[tag] else Stateless).builder(tag=tag, rec=rec)
+                builders[tag] = make_builder(tag, rec, stateful[tag], (spec.get('builders') or {}).get(str(tag)))
             f = flow.Functor(builders[tag], flow.Apply() if action == 'apply' else flow.Train())
             for _ in range(npre):
                 f = f.preset_state()
@@ -388,6 +551,102 @@ def materialise(spec, rec):
 
 
 # --------------------------------------------------------------------------------------------------
+# segments: real flow graphs, compiled by the real compiler and handed to `Runner._exec`
+# --------------------------------------------------------------------------------------------------
+#   seg ::= {'nodes': [[id, tag, szin, szout, fork_of | None], ...],       fork_of: made by `nodes[fork_of].fork()`
+#            'train': [[id, [pub id, pub port], [pub id, pub port]], ...],  `node.train(features, labels)`
+#            'subs':  [[sub id, sub port, pub id, pub port], ...],          `node[sub port].subscribe(pub[pub port])`
+#            'head': id, 'tail': id, 'stateful': [tag...],
+#            'assets': None | {'persistent': [node id of a member of the group...], 'prev': None | [...]}}
+
+
+@contextlib.contextmanager
+def isolated():
+    """Snapshot / restore `Subscription._PORTS` (process-global, never emptied by forml; see BUILDING.md)."""
+    from forml.flow._graph import port
+
+    ports = port.Subscription._PORTS  # pylint: disable=protected-access
+    saved = {k: set(v) for k, v in ports.items()}
+    try:
+        yield
+    finally:
+        ports.clear()
+        ports.update(saved)
+
+
+def _quiet_unraisable(unraisable):
+    """`Subscription.__del__` of a node that is no longer registered raises AttributeError; CPython prints it."""
+    if isinstance(unraisable.exc_value, (AttributeError, KeyError)):
+        return
+    sys.__unraisablehook__(unraisable)
+
+
+def build_segment(seg, rec, builders):
+    """(flow.Segment, asset.State | None, {id: node}) over fresh real workers."""
+    nodes: dict = {}
+    stateful = set(seg.get('stateful', ()))
+    for nid, tag, szin, szout, fork in seg['nodes']:
+        if fork is None:
+            nodes[nid] = flow.Worker(make_builder(tag, rec, tag in stateful, (builders or {}).get(str(tag))), szin, szout)
+        else:
+            nodes[nid] = nodes[fork].fork()
+    for nid, feat, lab in seg.get('train', ()):
+        nodes[nid].train(nodes[feat[0]][feat[1]], nodes[lab[0]][lab[1]])
+    for sub, sp, pub, pp in seg['subs']:
+        nodes[sub][sp].subscribe(nodes[pub][pp])
+    a = seg.get('assets')
+    assets = None if a is None else asset.State(FakeGeneration(rec, a.get('prev')), [nodes[i].gid for i in a['persistent']])
+    return flow.Segment(nodes[seg['head']], nodes[seg['tail']]), assets, nodes
+
+
+def describe_segment(seg, builders):
+    """Build the segment, compile it with the real compiler and describe the table as a spec (syms, assets);
+    None when the graph API / the compiler refuses it or emits something the spec vocabulary does not have."""
+    sys.unraisablehook = _quiet_unraisable
+    with isolated():
+        try:
+            segment, assets, nodes = build_segment(seg, None, builders)
+            symbols = flow.compile(segment, assets)
+        except Exception:  # pylint: disable=broad-except
+            return None
+        group = {}
+        for nid, n in nodes.items():
+            group.setdefault(n.gid, nid)
+        ids: dict = {}
+        for s in symbols:
+            ids.setdefault(id(s.instruction), len(ids))
+        syms = []
+        for s in symbols:
+            i = s.instruction
+            if isinstance(i, flow.Functor):
+                from forml.flow._code.target import user
+
+                chain, action = 0, i.action
+                while isinstance(action, user.SetState):
+                    chain, action = chain + 1, action._action  # pylint: disable=protected-access
+                if not isinstance(action, (flow.Apply, flow.Train)):
+                    return None
+                ins = ['functor', i.builder.args[0] if i.builder.args else i.builder.kwargs['tag'],
+                       'apply' if isinstance(action, flow.Apply) else 'train', chain]
+            elif isinstance(i, flow.Getter):
+                ins = ['getter', i.index]
+            elif isinstance(i, flow.Loader):
+                if i._key not in group:  # pylint: disable=protected-access
+                    return None
+                ins = ['loader', group[i._key]]  # pylint: disable=protected-access
+            elif isinstance(i, flow.Dumper):
+                ins = ['dumper']
+            elif isinstance(i, flow.Committer):
+                ins = ['committer']
+            else:
+                return None
+            syms.append([ids[id(i)], ins, [ids.setdefault(id(a), len(ids)) for a in s.arguments]])
+        a = seg.get('assets')
+        aspec = None if a is None else {'persistent': [group[nodes[i].gid] for i in a['persistent']], 'prev': a.get('prev')}
+        return {'syms': syms, 'assets': aspec}
+
+
+# --------------------------------------------------------------------------------------------------
 # the harness's own interpreter on the real instruction objects (dependency ordered, memoised)
 # --------------------------------------------------------------------------------------------------
 
@@ -396,9 +655,13 @@ class Cyclic(Exception):
     pass
 
 
-def reference(symbols, head=None, x=None):
+def reference(symbols, head=None, x=None, shipped=False):
     """{id(instr): value}. When `head` is given that instruction receives `x` as an additional last argument
-    (the single-function runner feeds the external input to the head)."""
+    (the single-function runner feeds the external input to the head). `shipped`: every instruction is executed the
+    way a worker process of the `processes` scheduler would - on a copy of the instruction object and of its
+    argument values rebuilt from their cloudpickle - and its result is pickled back."""
+    if shipped:
+        import cloudpickle
     up = {id(s.instruction): s for s in symbols}
     memo: dict = {}
     onstack: set = set()
@@ -413,7 +676,11 @@ def reference(symbols, head=None, x=None):
         args = [ev(a) for a in up[k].arguments] if k in up else []
         if head is not None and instr is head:
             args.append(x)
-        res = instr(*args)
+        if shipped:
+            task, targs = cloudpickle.loads(cloudpickle.dumps((instr, tuple(args))))
+            res = cloudpickle.loads(cloudpickle.dumps(task(*targs)))
+        else:
+            res = instr(*args)
         onstack.discard(k)
         memo[k] = res
         return res
@@ -426,7 +693,7 @@ def reference(symbols, head=None, x=None):
 # --------------------------------------------------------------------------------------------------
 # back-ends
 # --------------------------------------------------------------------------------------------------
-BACKENDS = ('ref', 'dask-synchronous', 'dask-threads', 'dask-processes', 'dask-processes-fresh', 'pyfunc-run', 'pyfunc-call',
+BACKENDS = ('ref', 'ref-shipped', 'dask-synchronous', 'dask-threads', 'dask-processes', 'dask-processes-fresh', 'pyfunc-run', 'pyfunc-call',
             'pyfunc-recover')
 
 _POOL = None
@@ -443,6 +710,38 @@ def _pool():
     return _POOL
 
 
+def probe_builder(bspec, stateful=False):
+    """The real `flow.Spec` on one builder description: creation, instantiation, pickling (plain pickle and cloudpickle,
+    which dask's `processes` scheduler uses), instantiation of the rebuilt builder. JSON-able."""
+    import pickle
+
+    import cloudpickle
+
+    def params(builder):
+        try:
+            return ['ok', [[k, v] for k, v in builder().get_params().items()]]
+        except TypeError:
+            return ['typeError']
+
+    try:
+        b = make_builder(7, None, stateful, bspec)
+    except TypeError:
+        return {'new': 'typeError'}
+    out = {'new': 'ok', 'call': params(b), 'roundtrip': {}}
+    for name, mod in (('pickle', pickle), ('cloudpickle', cloudpickle)):
+        try:
+            c = mod.loads(mod.dumps(b))
+        except TypeError:
+            out['roundtrip'][name] = {'same': None, 'call': ['typeError']}
+            continue
+        same = c.actor is b.actor and tuple(c.args) == tuple(b.args) and dict(c.kwargs) == dict(b.kwargs) \
+            and [type(x) for x in c.args] == [type(x) for x in b.args] \
+            and {k: type(v) for k, v in c.kwargs.items()} == {k: type(v) for k, v in b.kwargs.items()}
+        out['roundtrip'][name] = {'same': same, 'args': list(c.args[2:]), 'kw': [[k, v] for k, v in c.kwargs.items()],
+                                  'call': params(c)}
+    return out
+
+
 def shutdown_pool():
     global _POOL  # pylint: disable=global-statement
     if _POOL is not None:
@@ -455,11 +754,21 @@ INPUT2 = ('input', 1)
 
 
 def run_backend(spec, backend, rec):
-    """Drive one back-end on a freshly materialised table. Returns a JSON-able outcome:
+    """Drive one back-end on a freshly materialised table (or, for a spec with a 'segment', on a freshly built real
+    flow segment: the dask and pyfunc runners then go through `Runner._exec(segment, assets)`, which compiles it).
+    Returns a JSON-able outcome:
 
         {'status': 'ok'|'rejected'|'crash'|'unbuildable', 'error': class name, 'stage': 'build'|'run',
          'result': [digest, brief] (pyfunc only), 'records': [...]}
     """
+    if spec.get('segment'):
+        sys.unraisablehook = _quiet_unraisable
+        with isolated():
+            return _run_backend(spec, backend, rec)
+    return _run_backend(spec, backend, rec)
+
+
+def _run_backend(spec, backend, rec):
     import dask
 
     from forml.provider.runner import dask as daskrunner
@@ -468,15 +777,25 @@ def run_backend(spec, backend, rec):
     if os.path.exists(rec):
         os.unlink(rec)
     out = {'backend': backend, 'status': 'ok'}
+    segment = assets = None
     try:
-        symbols, instr, _ = materialise(spec, rec)
+        if spec.get('segment'):
+            segment, assets, _ = build_segment(spec['segment'], rec, spec.get('builders'))
+            if backend in ('ref', 'ref-shipped', 'pyfunc-call', 'pyfunc-recover'):
+                symbols = flow.compile(segment, assets)
+        else:
+            symbols, instr, _ = materialise(spec, rec)
     except Unbuildable as e:
         return {'backend': backend, 'status': 'unbuildable', 'error': str(e), 'records': []}
     except forml.AssemblyError:
         return {'backend': backend, 'status': 'unbuildable', 'error': 'AssemblyError', 'records': []}
+    except TypeError as e:  # `Spec.__new__` refuses the builder arguments: there is no table
+        return {'backend': backend, 'status': 'unbuildable', 'error': f'TypeError: {e}', 'records': []}
     try:
         if backend == 'ref':
             reference(symbols)
+        elif backend == 'ref-shipped':
+            reference(symbols, shipped=True)
         elif backend.startswith('dask-'):
             sched = backend.split('-')[1]
             conf = dict(daskrunner.Runner.DEFAULTS, scheduler=sched)
@@ -485,10 +804,20 @@ def run_backend(spec, backend, rec):
             elif backend == 'dask-processes-fresh':
                 conf['num_workers'] = 3
             with dask.config.set(conf):
-                daskrunner.Runner.run(symbols)
+                if segment is not None:
+                    runner = object.__new__(daskrunner.Runner)  # `_exec` needs `run` and the constructor's kwargs only
+                    runner._kwargs = {}  # pylint: disable=protected-access
+                    runner._exec(segment, assets)  # pylint: disable=protected-access
+                else:
+                    daskrunner.Runner.run(symbols)
         elif backend == 'pyfunc-run':
             out['stage'] = 'run'
-            pyfunc.Runner.run(symbols)
+            if segment is not None:
+                runner = object.__new__(pyfunc.Runner)
+                runner._kwargs = {}  # pylint: disable=protected-access
+                runner._exec(segment, assets)  # pylint: disable=protected-access
+            else:
+                pyfunc.Runner.run(symbols)
         elif backend == 'pyfunc-call':
             out['stage'] = 'build'
             expr = pyfunc.Expression(symbols)
